@@ -58,7 +58,7 @@ CHAINS = [[], ['square'], ['plus1', 'twice'], ['twice', 'plus1'], ['square', 'pl
 KINDS = ['CPA', 'DPA', 'ANOVA', 'NICV', 'SNR', 'MIA']
 
 
-def selection(mode, layout='C'):
+def selection(mode, layout='C', nclass=9):
     """layout 'T': the attack function builds its output guess-major and returns a transposed view (not C-contiguous), the way the
     ready-made selection functions do; the values are the same"""
     import scared
@@ -68,30 +68,31 @@ def selection(mode, layout='C'):
             if layout == 'T':
                 buf = np.empty((len(guesses), v.shape[0], v.shape[1]), dtype='uint8')
                 for g in guesses:
-                    buf[g] = (v + g) % 9
+                    buf[g] = (v + g) % nclass
                 return buf.swapaxes(0, 1)
             out = np.empty((v.shape[0], len(guesses), v.shape[1]), dtype='uint8')
             for g in guesses:
-                out[:, g, :] = (v + g) % 9
+                out[:, g, :] = (v + g) % nclass
             return np.asfortranarray(out) if layout == 'F' else out      # 'F': Fortran-contiguous, as fancy indexing of the words axis yields
         return sf
 
     @scared.reverse_selection_function
     def rsf(v):
-        return v
+        return v % nclass
     return rsf
 
 
-def build(kind, mode, precision, convergence_step=None, layout='C'):
+def build(kind, mode, precision, convergence_step=None, layout='C', nclass=9, declared=None):
     """(analysis object, factory of the matching standalone distinguisher)"""
     import scared
-    sf = selection(mode, layout)
+    sf = selection(mode, layout, nclass)
     model = {'CPA': scared.HammingWeight(), 'DPA': scared.Monobit(0)}.get(kind, scared.Value())
     kw = {}
     dkw = {}
     if kind in ('ANOVA', 'NICV', 'SNR', 'MIA'):
-        kw['partitions'] = range(9)
-        dkw['partitions'] = range(9)
+        # declared < nclass: the values declared .. nclass-1 occur in the data but belong to no declared class (they are ignored)
+        kw['partitions'] = range(declared or nclass)
+        dkw['partitions'] = range(declared or nclass)
     if kind == 'MIA':
         kw['bin_edges'] = np.arange(0, 1100, 100).astype('float64') if False else None
     if mode == 'attack':
